@@ -167,6 +167,7 @@ class State:
         self.gone = []  # forwards that were cancelled
         self.tcp_phase = "never"
         self.x11_phase = "never"
+        self.unmatched_cancels = 0
         self.next_alloc = 40000
         self.handled = []  # channels given to custom handlers
 
@@ -204,6 +205,10 @@ def judge_batch(ctx, sess, st, since_n, desc, sent):
                 ctx.count("channel_opens_read")
                 if kind == "forwarded-tcpip":
                     ctx.count("tcp_open_read_phase_" + info.get("tcp_phase", "never"))
+                if kind == "forwarded-tcpip" and info.get("unmatched_cancels") and info.get("cancelled") and not info.get("live"):
+                    ctx.count("tcp_open_read_after_cancel_with_unmatched_cancels_in_history")
+                if kind == "forwarded-tcpip" and "malformed_success" in info.get("tcp_phase", ""):
+                    ctx.count("tcp_open_read_after_malformed_success")
                 if kind == "x11":
                     ctx.count("x11_open_read_phase_" + info.get("x11_phase", "never"))
                 if info.get("tcp_dontcare"):
@@ -234,6 +239,10 @@ def judge_batch(ctx, sess, st, since_n, desc, sent):
                         cls = kind if kind in OPEN_KINDS else "unknown kind"
                         if not feat:
                             why = "never enabled"
+                        elif feat == "tcp" and info.get("tcp_phase") == "after_request_raised_on_malformed_success":
+                            why = "after request_port_forward raised on a malformed REQUEST_SUCCESS"
+                        elif feat == "tcp" and info.get("cancelled") and info.get("unmatched_cancels"):
+                            why = "after cancel_port_forward, with unmatched cancels earlier in the history"
                         elif feat == "tcp" and info.get("cancelled"):
                             why = {"after_cancel_refused_by_server": "after a cancel the server answered with REQUEST_FAILURE",
                                    "after_cancel_delayed_reply": "after cancel_port_forward returned late"}.get(
@@ -278,6 +287,53 @@ def run_session(ctx, rng, desc):
                 ctx.count("session_ended_early")
                 break
             kind = op[0]
+            if kind == "enable_pf_malformed":
+                # port-0 request whose REQUEST_SUCCESS is malformed: whatever request_port_forward() does, a call
+                # that raised leaves no live forward; a call that returned a port leaves one (until cancelled)
+                if st.live:
+                    continue
+                sess.hold()
+                istart = sess.att.inbox_mark()
+                variant = op[2]
+                h = (lambda c, a, b: st.handled.append(c)) if op[1] else None
+                box = {}
+
+                def _req(_h=h):
+                    try:
+                        box["v"] = v.request_port_forward("127.0.0.1", 0, handler=_h)
+                    except Exception as e:  # noqa
+                        box["e"] = e
+
+                th = threading.Thread(target=_req, daemon=True)
+                th.start()
+                req = sess.att.wait_inbox(lambda e: e["type"] == 80 and b"tcpip-forward" in e["payload"]
+                                          and b"cancel-" not in e["payload"], 60, istart)
+                if req is None:
+                    ctx.inconclusive("hostile server never saw the tcpip-forward request")
+                    return
+                alloc = st.next_alloc
+                st.next_alloc += 1
+                body = dict(missing=b"", zero=u32(0), true_as_int=u32(16777216), above_65535=u32(70000),
+                            negative_looking=u32(0xFFFFFFFF), high_bit=u32(0x80000000), trailing_garbage=u32(alloc) + b"\x00\x01",
+                            short_field=b"\x00\x9c", valid=u32(alloc))[variant]
+                sess.raw(81, body)
+                th.join(60)
+                if th.is_alive():
+                    ctx.inconclusive("request_port_forward did not return after the server's answer")
+                    return
+                ctx.count("api_request_pf_malformed_reply_" + variant)
+                if "e" in box:
+                    refused["tcp"] = True
+                    st.tcp_phase = "after_request_raised_on_malformed_success"
+                    ctx.count("api_request_pf_malformed_reply_call_raised")
+                else:
+                    st.live.append(("127.0.0.1", box["v"], "zero"))
+                    st.enabled["tcp"] = ever["tcp"] = True
+                    st.tcp_phase = "live_after_malformed_success_returned"
+                    cancelled = False
+                    ctx.count("api_request_pf_malformed_reply_call_returned")
+                sess.fence()
+                continue
             if kind in ("cancel_pf_refused", "cancel_pf_delayed"):
                 # the hostile server answers the cancel by hand: with REQUEST_FAILURE, or late with opens in between
                 if len(st.live) != 1:
@@ -327,7 +383,7 @@ def run_session(ctx, rng, desc):
                 sess.fence()
                 continue
             if kind in ("open_session", "enable_x11", "enable_agent", "enable_pf", "refused_pf", "cancel_pf", "close_chan",
-                        "x11_history"):
+                        "x11_history", "cancel_pf_unmatched"):
                 if not sess.release():
                     break
                 if kind == "open_session":
@@ -459,6 +515,27 @@ def run_session(ctx, rng, desc):
                         st.tcp_phase = "after_cancel_all_of_many"
                     else:
                         st.tcp_phase = "after_cancel_port0" if fw[2] == "zero" else "after_cancel_explicit"
+                elif kind == "cancel_pf_unmatched":
+                    # a cancel with no matching granted forward: duplicate, after a refused request, never requested.
+                    # Reference model: the set of live forwards does not change (and never goes negative).
+                    variant = op[2]
+                    live_ports = [x[1] for x in st.live]
+                    if variant == "duplicate":
+                        cands = [g for g in st.gone if g[1] not in live_ports]
+                        if not cands:
+                            continue
+                        tgt = rng.choice(cands)[:2]
+                    elif variant == "after_refused":
+                        if not refused["tcp"] or 4023 in live_ports:
+                            continue
+                        tgt = ("127.0.0.1", 4023)
+                    else:
+                        tgt = ("127.0.0.1", rng.randrange(5000, 6000))
+                    r, val = api(lambda: v.cancel_port_forward(tgt[0], tgt[1]))
+                    st.unmatched_cancels += 1
+                    ctx.count("api_cancel_pf_unmatched_" + variant)
+                    if st.live:
+                        ctx.count("unmatched_cancel_while_another_forward_live")
                 elif kind == "close_chan":
                     if len(st.client_chans) < 2:
                         continue
@@ -474,7 +551,8 @@ def run_session(ctx, rng, desc):
             since_n = sess.att.mark()
             sent = {}
             snap = dict(enabled=dict(st.enabled), ever=dict(ever), refused=dict(refused), cancelled=cancelled,
-                        live=[(a, p) for (a, p, _) in st.live], tcp_phase=st.tcp_phase, x11_phase=st.x11_phase)
+                        live=[(a, p) for (a, p, _) in st.live], tcp_phase=st.tcp_phase, x11_phase=st.x11_phase,
+                        unmatched_cancels=st.unmatched_cancels)
             msgs = []
             if kind == "globals":
                 for gk in rng.sample(GLOBAL_KINDS, rng.randint(2, 4)) + [rand_name(rng)]:
@@ -543,15 +621,22 @@ def run_session(ctx, rng, desc):
         sess.close()
 
 
-def draw_ops(rng):
+MALFORMED_VARIANTS = ["missing", "zero", "true_as_int", "above_65535", "negative_looking", "high_bit", "trailing_garbage",
+                      "short_field", "valid"]
+
+
+def draw_ops(rng, idx=0):
     ops = [("open_session",)]
     n = rng.randint(3, 6)
     pool = ["globals", "opens", "opens", "chanreqs", "chanreqs", "enable_x11", "enable_agent", "enable_pf", "refused_pf",
-            "cancel_pf", "open_session", "close_chan"]
+            "cancel_pf", "open_session", "close_chan", "cancel_pf_unmatched"]
     if rng.random() < 0.25:
         ops = []  # also sessions where the client never opened anything
     for _ in range(n):
         k = rng.choice(pool)
+        if k == "cancel_pf_unmatched":
+            ops.append((k, False, rng.choice(["duplicate", "after_refused", "never_requested"])))
+            continue
         ops.append((k, rng.random() < 0.5))
         if k == "refused_pf":
             ops.insert(len(ops) - 1, ("cancel_pf", False, "all"))  # a refusal is only meaningful with no forward live
@@ -572,6 +657,16 @@ def draw_ops(rng):
     if rng.random() < 0.6:
         ops = ops + [("cancel_pf", False, "all"), ("enable_pf", hf(), rng.choice(["explicit", "zero"])), F,
                      (rng.choice(["cancel_pf_refused", "cancel_pf_delayed"]), False), F]
+    if idx % 2 == 0:
+        variant = ["duplicate", "after_refused", "never_requested"][(idx // 2) % 3]
+        pre = {"duplicate": [("enable_pf", hf(), rng.choice(["explicit", "zero"])), ("cancel_pf", False, "all")],
+               "after_refused": [("refused_pf", False)], "never_requested": []}[variant]
+        ops = ops + [("cancel_pf", False, "all")] + pre + [("cancel_pf_unmatched", False, variant)] * rng.choice([1, 1, 2]) \
+            + [F, ("enable_pf", hf(), rng.choice(["explicit", "zero"])), F, ("cancel_pf", False, "all"), F]
+    if idx % 2 == 1:
+        ops = ops + [("cancel_pf", False, "all"),
+                     ("enable_pf_malformed", hf(), MALFORMED_VARIANTS[(idx // 2) % len(MALFORMED_VARIANTS)]), F,
+                     ("cancel_pf", False, "all"), F]
     if rng.random() < 0.8:
         scen = rng.choice([
             [("enable_pf", hf(), "zero"), F, ("cancel_pf", False, "one"), F],
@@ -599,7 +694,7 @@ def run(ctx):
         if time.time() > deadline:
             ctx.count("sessions_not_run_time_cap")
             continue
-        desc = dict(ops=[list(o) for o in draw_ops(rng)])
+        desc = dict(ops=[list(o) for o in draw_ops(rng, i)])
         if shown < 3:
             desc["sample"] = True
             shown += 1
@@ -629,6 +724,12 @@ def run(ctx):
     ctx.require("tcp_open_read_phase_live_after_rerequest", 5)
     ctx.require("tcp_open_accepted_phase_live", 10)
     ctx.require("api_cancel_pf_refused", 8)
+    for variant in ("duplicate", "after_refused", "never_requested"):
+        ctx.require("api_cancel_pf_unmatched_" + variant, 6)
+    ctx.require("tcp_open_read_after_cancel_with_unmatched_cancels_in_history", 12)
+    for variant in MALFORMED_VARIANTS:
+        ctx.require("api_request_pf_malformed_reply_" + variant, 2 if q else 20)
+    ctx.require("tcp_open_read_after_malformed_success", 15)
     ctx.require("api_cancel_pf_delayed", 8)
     ctx.require("tcp_open_read_phase_after_cancel_refused_by_server", 8)
     ctx.require("tcp_open_read_phase_after_cancel_delayed_reply", 8)
